@@ -61,6 +61,13 @@ CHECKS = {
         note="Fault points are the invocations of generated user callbacks (transform, attribute transform, preparer, item preparer, __post_copy__) observed in a natural run; trusts vf/snapshot.py.",
         ref="DESIGN.md section 4, C04",
     ),
+    "C02": dict(
+        level="exploration",
+        technique="property-based testing over a class-definition grammar: Hypothesis-generated worlds, histories, copy probes and in-place follow-up mutations; oracle = disjointness of reachable mutable-object ids + before/after snapshot differential",
+        text="Hypothesis generates class worlds (incl. do_not_copy attributes via decorator list / Attr flag / inheritance, frozen nested classes), a state, a copy-on-write probe or deepcopy, and up to 6 in-place follow-up operations on one side; the check asserts that result and receiver share no mutable object other than caller-supplied ones and do_not_copy attributes (which must be carried by identity), and that follow-up mutations of one side leave the snapshot of the other unchanged. Sampled search.",
+        note="Trusts vf/snapshot.py:mutable_ids / Snapshot (raw storage walk); identity transforms on mutable values are excluded as the property's own quantifier does.",
+        ref="DESIGN.md section 4, C02",
+    ),
 }
 
 NOT_YET = "check not built yet in this revision (see DESIGN.md section 9 for the order); nothing is claimed"
